@@ -653,7 +653,10 @@ def session_oracle(w, meta, res):
         out.append((None, {"what": "phase finished but replies != requests", "wire": wire, "requests": len(reqs)}))
     # nonfatal_returns_code: every failing external command ends its request with exactly that code,
     # so the non-zero statuses answered by the oracle are a subsequence of the reply statuses
-    codes = [st for st, _ in w.oracle.answers if st != 0]
+    # (a failing patch(1) that printed nothing makes eapply raise IndexError on output[0]: "internal
+    # failure", code 1 - modelled as HOther, see notes)
+    codes = [st for (st, out_), call in zip(w.oracle.answers, w.oracle.calls)
+             if st != 0 and not (call[0] == "patch" and not out_)]
     it = iter(l.split("\x07", 1)[0] for l in lines)
     if not all(any(str(c) == got for got in it) for c in codes):
         out.append((None, {"what": "a failing external command's exit status is not the status of a reply",
